@@ -478,27 +478,125 @@ def run_quiet(ctx, r, seeds_per_case):
     return n
 
 
+ATOMIC_METHODS = {
+    "asyncio/protocol.py": {
+        "QuicConnectionProtocol": ["change_connection_id", "close", "connect", "request_key_update", "transmit",
+                                   "connection_made", "datagram_received", "quic_event_received", "_create_stream",
+                                   "_handle_timer", "_process_events", "_transmit_soon"],
+        "QuicStreamAdapter": ["write", "write_eof", "close"],
+    },
+    "asyncio/server.py": {
+        "QuicServer": ["close", "connection_made", "datagram_received", "_connection_id_issued",
+                       "_connection_id_retired", "_connection_terminated"],
+    },
+}
+# coroutines of the API: the model's atomic step is the synchronous part up to the ONE await that ends them
+SINGLE_AWAIT = {"asyncio/protocol.py": {"QuicConnectionProtocol": {"ping": 1, "wait_connected": 1, "wait_closed": 1,
+                                                                     "create_stream": 0}}}
+REENTER = {"run_until_complete", "run_forever"}
+
+
+def atomicity_audit(ctx):
+    """TRUSTED-BASE AUDIT ("asyncio callbacks are atomic").  The model treats each of these methods as one
+    atomic step.  That is sound only while they are plain functions: no `async def`, no generator, no call
+    that re-enters the event loop — and while each API coroutine suspends exactly once, as its last action.
+    Checked on the source under test (every plain method of the classes is checked for yield points /
+    re-entry, so extracted helpers are covered)."""
+    import ast
+    problems = []
+    for rel, classes in ATOMIC_METHODS.items():
+        mod = ast.parse(open(tree.src(rel)).read())
+        for cname, wanted in classes.items():
+            cls = next((n for n in mod.body if isinstance(n, ast.ClassDef) and n.name == cname), None)
+            if cls is None:
+                problems.append(f"{rel}: class {cname} not found")
+                continue
+            methods = {n.name: n for n in cls.body if isinstance(n, (ast.FunctionDef, ast.AsyncFunctionDef))}
+            for name in wanted:
+                m = methods.get(name)
+                if m is None:
+                    problems.append(f"{rel}: {cname}.{name} (modelled as an atomic step) does not exist")
+                elif isinstance(m, ast.AsyncFunctionDef):
+                    problems.append(f"{rel}: {cname}.{name} is now `async def`: it can be suspended in the middle, "
+                                    f"the model treats it as atomic")
+            single = SINGLE_AWAIT.get(rel, {}).get(cname, {})
+            for name, m in methods.items():
+                inner = [n for n in ast.walk(m) if n is not m]
+                nested = {id(x) for n in inner if isinstance(n, (ast.FunctionDef, ast.AsyncFunctionDef, ast.Lambda))
+                          for x in ast.walk(n) if x is not n}
+                body_nodes = [n for n in inner if id(n) not in nested]
+                for n in body_nodes:
+                    if isinstance(n, (ast.Yield, ast.YieldFrom)):
+                        problems.append(f"{rel}: {cname}.{name} contains a yield point (line {n.lineno})")
+                    if isinstance(n, ast.Call) and isinstance(n.func, ast.Attribute) and (
+                            n.func.attr in REENTER or (n.func.attr == "run" and isinstance(n.func.value, ast.Name)
+                                                       and n.func.value.id == "asyncio")):
+                        problems.append(f"{rel}: {cname}.{name} re-enters the event loop "
+                                        f"({n.func.attr}, line {n.lineno})")
+                if isinstance(m, ast.AsyncFunctionDef):
+                    awaits = [n for n in body_nodes if isinstance(n, (ast.Await, ast.AsyncFor, ast.AsyncWith))]
+                    if name not in single:
+                        problems.append(f"{rel}: {cname}.{name} is a coroutine the model does not know")
+                        continue
+                    if len(awaits) != single[name]:
+                        problems.append(f"{rel}: {cname}.{name} has {len(awaits)} suspension points, the model "
+                                        f"assumes {single[name]}")
+                    elif awaits and not _is_last_action(m, awaits[0]):
+                        problems.append(f"{rel}: {cname}.{name} runs code after its await (line {awaits[0].lineno}): "
+                                        f"the part after the suspension is not modelled")
+                elif name in single:
+                    problems.append(f"{rel}: {cname}.{name} is no longer a coroutine")
+    for msg in problems:
+        ctx.broken.append({"kind": "audit", "atomicity": msg})
+    ctx.notes["atomicity_audit"] = "ok" if not problems else problems
+    return problems
+
+
+def _is_last_action(fn, aw):
+    """the statement holding `aw` is the last of its block, and so is every enclosing compound statement"""
+    import ast
+
+    def last_in(block, target):
+        if not block:
+            return False
+        st = block[-1]
+        if any(x is target for x in ast.walk(st)):
+            if isinstance(st, ast.Expr) or isinstance(st, (ast.Return, ast.Assign, ast.AugAssign, ast.AnnAssign)):
+                return True
+            blocks = [getattr(st, f) for f in ("body", "orelse", "finalbody") if getattr(st, f, None)]
+            if isinstance(st, ast.Try):
+                return False
+            return any(last_in(b, target) for b in blocks if any(x is target for s2 in b for x in ast.walk(s2)))
+        return False
+
+    return last_in(fn.body, aw)
+
+
 def main(tier):
     ctx = core.Ctx("C19", tier)
     tree.activate()
     logging.disable(logging.CRITICAL)
     ctx.prove(["AQ.Props.C19"], [])
+    atomicity_audit(ctx)
     ctx.cov["trusted_base"] = [
         "Lean 4.33.0 kernel (+ leanchecker in thorough tier)",
         "axioms: subset of {propext, Classical.choice, Quot.sound} (audited by #print axioms)",
         "model AQ.Model.Adapter follows protocol.py / server.py with fixes/C19-*.diff applied; the QUIC events, "
         "get_timer() value, id(waiter), os.urandom CIDs and the parsed header of each callback are inputs",
         "harness/vloop.py (virtual-time SelectorEventLoop subclass, in-memory network) and harness/impl_adapter.py "
-        "(tracing subclasses, canonical lines); CPython asyncio semantics (callbacks run to completion, call_soon FIFO)",
+        "(tracing subclasses, canonical lines); CPython asyncio semantics (callbacks run to completion, call_soon FIFO) — "
+        "audited on every run: the modelled methods are plain defs without yield points or loop re-entry, each API "
+        "coroutine suspends once, as its last action (atomicity_audit)",
     ]
     ctx.assumptions = [
         "C05/C16: receive_datagram / handle_timer / datagrams_to_send do not raise (an exception would skip transmit() "
         "and leave the timer unarmed)",
-        "C01/C09: per connection at most one ConnectionTerminated and no event after it; no StreamDataReceived for a "
-        "stream after its end_stream; get_timer() is None once terminated",
+        "event order (EventStreamOK: nothing after ConnectionTerminated; per stream nothing after end_stream) — an explicit "
+        "hypothesis that Props.C19.event_order_discharged DERIVES from C09 terminated_once and C01 (c01_nothing_after_end)",
         "C18: ConnectionIdRetired only for an ID issued by this connection and not yet retired; os.urandom connection IDs "
-        "do not collide with routed IDs",
-        "id(waiter) is unique among live ping waiters (CPython object identity)",
+        "do not collide with routed IDs (ghost monitors vCid / vRand); create_stream IDs fresh (vStream)",
+        "LiveDistinct: id(waiter) differs from the ids of the ping waiters alive at that moment (CPython object identity of "
+        "simultaneously live objects; re-use after completion allowed)",
         "unforgeable seal: a token that validates under the server's RSA key was produced by its create_token "
         "(RSA-OAEP with a key pair that never leaves QuicRetryTokenHandler)",
         "end-to-end byte equality composes with C01/C10 (QUIC stream delivery) — the adapter clause proved here is "
